@@ -254,6 +254,12 @@ type rawRun struct {
 	acksDelivered          int // ACKs delivered that acknowledged new data (segments acked counted separately)
 	segsAcked              int
 	dupAcksDelivered       int
+	recover, maxSentEnd    uint32 // RFC 6582 recover point; end of the highest data transmitted
+	recoverExit            uint32 // the same, moved up once more when a recovery episode ends (what this stack does)
+	episode                bool   // a fast-recovery episode is in progress
+	haveRecover            bool
+	haveMaxSent            bool
+	inDupAckStep           bool
 	timeoutsFired          int
 	earlyTimer             bool
 	lostOnce               map[uint32]bool
@@ -360,6 +366,15 @@ func (x *rawRun) sendAck(ack uint32, wnd int, sack []ref.SACKBlock) {
 		edge = ack + uint32(wnd)<<x.peerShift()
 	}
 	isDup := x.haveAdv && ack == x.advAck
+	if x.episode && x.haveRecover && ref.SeqLT(x.recover, ack) {
+		// this ACK covers the recover point: the episode ends; the stack moves its marker to
+		// the highest sequence sent so far (data sent during the recovery is not given a fast
+		// retransmit of its own) - stricter than RFC 6582, see the known finding below
+		x.episode = false
+		if x.haveMaxSent && ref.SeqLT(x.recoverExit, x.maxSentEnd-1) {
+			x.recoverExit = x.maxSentEnd - 1
+		}
+	}
 	x.r.SendTCP(peerPort, x.sPort, x.pSndNxt, ack, ref.ACK, uint16(wnd), x.segOpts(sack), nil)
 	x.firstAckDelivered = true // any ACK of the data phase, duplicate or not, ends the initial-window phase
 	if !x.haveAdv || ref.SeqLT(x.maxEdge, edge) {
@@ -385,12 +400,19 @@ func (x *rawRun) sendAck(ack uint32, wnd int, sack []ref.SACKBlock) {
 	x.advEdge = edge
 	x.haveAdv = true
 	// C05 (1): the third duplicate ACK must be answered, in the same step, by a
-	// retransmission of the earliest unacknowledged segment (first loss episode only: RFC 6582
-	// forbids a second fast retransmit inside one episode, and after a timeout the
-	// duplicate-ACK counter restarts).
+	// retransmission of the earliest unacknowledged segment, unless it acknowledges nothing
+	// beyond the RFC 6582 recover point (no second fast retransmit inside one episode, none
+	// for data that was in flight when a timeout happened); for data sent after that point
+	// it is demanded again.
 	before := len(x.sent)
+	// RFC 6582 3.2 step 2: the cumulative ACK must cover more than recover (ack-1 > recover)
+	third := isDup && x.dupForUna[ack] == 3
+	demand := third && (!x.haveRecover || ref.SeqLT(x.recoverExit, ack-1))
+	demandRFC := third && !demand && ref.SeqLT(x.recover, ack-1)
+	x.inDupAckStep = isDup && x.dupForUna[ack] >= 3
 	x.scanEmitted()
-	if isDup && x.has('r') && x.dupForUna[ack] == 3 && !x.frDone && x.timeoutsFired == 0 {
+	x.inDupAckStep = false
+	if (demand || demandRFC) && x.has('r') {
 		outstanding := false
 		for _, sg := range x.sent[:before] {
 			if sg.seq == ack && sg.n > 0 {
@@ -405,8 +427,11 @@ func (x *rawRun) sendAck(ack uint32, wnd int, sack []ref.SACKBlock) {
 					found = true
 				}
 			}
-			if !found {
+			if !found && demand {
 				x.fail("C05", "no-fast-retransmit", "no-fast-retransmit", "three duplicate ACKs for seq+%d were delivered but the segment was not retransmitted at once (segments emitted in that step: %d)", ack-x.sIss, len(x.sent)-before)
+			}
+			if !found && demandRFC {
+				x.fail("C05", "no-fast-retransmit", "no-fast-retransmit-after-recovery-exit", "three duplicate ACKs for seq+%d (first sent during the previous fast recovery, beyond its recover point seq+%d) were delivered but the segment was not retransmitted at once", ack-x.sIss, x.recover-x.sIss)
 			}
 		}
 	}
@@ -639,6 +664,17 @@ func (x *rawRun) onEmit(d *Decoded) {
 		}
 		if x.has('r') {
 			x.checkRecovery(seq, n, d.F.At, rtx)
+		}
+		// RFC 6582 "recover": the highest sequence number transmitted when a timeout (or a fast
+		// retransmit) happened; duplicate ACKs for data at or below it must not start another
+		// fast retransmit, duplicate ACKs for data sent later must
+		if rtx && (x.inTimerStep || x.inDupAckStep) && (!x.haveRecover || ref.SeqLT(x.recover, x.maxSentEnd-1)) {
+			x.recover, x.haveRecover = x.maxSentEnd-1, true
+			x.recoverExit = x.recover
+			x.episode = x.inDupAckStep
+		}
+		if !x.haveMaxSent || ref.SeqLT(x.maxSentEnd, seq+uint32(n)) {
+			x.maxSentEnd, x.haveMaxSent = seq+uint32(n), true
 		}
 		x.sent = append(x.sent, sentSeg{seq: seq, n: n, at: d.F.At, flags: t.Flags, rtx: rtx, ackTriggered: !x.inTimerStep})
 	}
@@ -1014,6 +1050,15 @@ func (x *rawRun) menu() []action {
 		}
 	case len(apps) > 0:
 		m = append(m, apps[0])
+		// the peer's data overtakes the application: its second segment arrives first (a hole,
+		// hence SACK blocks in everything the stack sends until the first one shows up)
+		if x.dev('e') && x.established && len(x.pSegs) >= 2 && x.fits(x.pSegs[0]) && x.fits(x.pSegs[1]) {
+			nx := x.pSegs[1]
+			m = append(m, action{name: fmt.Sprintf("peer sends [%d,+%d) out of order before %s", nx[0], nx[1], apps[0].name), cost: 1, do: func() {
+				x.pSegs = append([][2]int{x.pSegs[0]}, x.pSegs[2:]...)
+				x.peerSendData(nx[0], nx[1], false)
+			}})
+		}
 	case len(x.pSegs) > 0 && x.established && !x.fits(x.pSegs[0]) && x.room() > 0:
 		s := x.pSegs[0]
 		k := x.room()
